@@ -278,11 +278,12 @@ def run(chk):
     else:
         chk.violation("C08.chunks", ec, "self._http_chunk_splits.append(self.total_bytes)", "!(self.total_bytes == pos)", "chunk boundaries are not recorded at the sender's positions")
     # "empty" is judged against the last recorded boundary, which must not be read back from the queue the consumer drains
-    pd = norm.fn_defs(ec.node).defs.get("pos", [])
-    if pd and all(v is not None and "_http_chunk_splits[-1]" not in norm.raw(v) for _d, v in pd):
-        chk.ok("C08.chunks", pd[0][0], "the previous boundary is kept by the producer itself (not taken from the split queue, which readchunk() empties)")
+    bnd = PC.has_lit(PC.pc(ap[0][0]), "self.total_bytes == $P", False) if ap else None
+    prev = norm.text(bnd["P"], ap[0][0]) if bnd else ""
+    if prev and "_http_chunk_splits[-1]" not in prev and "_http_chunk_splits" not in prev:
+        chk.ok("C08.chunks", ap[0][0], f"the previous boundary (`{prev}`) is kept by the producer itself (not taken from the split queue, which readchunk() empties)")
     else:
-        chk.violation("C08.chunks", pd[0][0] if pd else ec, "pos = self._http_chunk_splits[-1] if self._http_chunk_splits else 0", "a producer-side record of the last boundary",
+        chk.violation("C08.chunks", ap[0][0] if ap else ec, "pos = self._http_chunk_splits[-1] if self._http_chunk_splits else 0", "a producer-side record of the last boundary",
                       "the previous chunk boundary is read from the split queue: once the reader has drained the queue it looks like `no boundary yet` (0), so an empty HTTP chunk (e.g. a gzip trailer chunk) is recorded as a duplicate boundary or not depending on whether the reader was faster - readchunk() returns a spurious (b'', True)")
     rk = repo.func(MOD, f"{SR}.readchunk")
     if K.exprs(rk, "self._read_nowait(pos - self._cursor)") and K.exprs(rk, "self._http_chunk_splits.popleft()"):
